@@ -206,7 +206,7 @@ def exact_system_eval(spec, xvals: dict):
     return env
 
 
-def random_loop_system(rng, size=2, name='loop', max_level=2, downstream=True, nonlinear=False, extra=False, log=None, norms=False, gain_scale=1):
+def random_loop_system(rng, size=2, name='loop', max_level=2, downstream=True, nonlinear=False, extra=False, log=None, norms=False, gain_scale=1, side=None):
     """A feedback loop of `size` components: comp i computes u_i = c_i + sum_j A_ij * u_j (+ quadratic term if nonlinear)
     + b_i * x_i, with a contraction matrix A (row sums < 0.6); optionally a downstream component reading u_0.
     Returns (system, spec) with spec['A'], spec['b'], spec['c'] as Fractions for the exact linear solve."""
@@ -227,16 +227,23 @@ def random_loop_system(rng, size=2, name='loop', max_level=2, downstream=True, n
     for i in range(size):
         variables[f'u{i}'] = Variable(f'u{i}', domain=(-6.0, 6.0), norm=(nrng.choice([None, 'linear(0.5, 1)', 'zscore(1, 2)']) if norms else None))
     comps = []
+    # side = (producer, consumer, d): member `producer` also returns s = 2 x_producer + 1, which member `consumer` reads with coefficient d: s is
+    # a coupling variable of the loop that does not depend on the loop state (it is settled after the first sweep)
+    if side is not None:
+        variables['s'] = Variable('s', domain=(-6.0, 6.0))
     for i in range(size):
         ins = [f'x{i}'] + [f'u{j}' for j in range(size) if A[i][j] != 0]
         coef = [float(b[i])] + [float(A[i][j]) for j in range(size) if A[i][j] != 0]
         ci = float(c[i])
+        if side is not None and side[1] == i:
+            ins.append('s'); coef.append(float(side[2]))
+        has_side = side is not None and side[0] == i
 
         has_extra = extra and i == 0
         if has_extra:
             variables['w0'] = Variable('w0', domain=(-100.0, 100.0))
 
-        def model(inputs, _ins=tuple(ins), _coef=tuple(coef), _c=ci, _o=f'u{i}', _nl=nonlinear, _ex=has_extra, _name=f'l{i}'):
+        def model(inputs, _ins=tuple(ins), _coef=tuple(coef), _c=ci, _o=f'u{i}', _nl=nonlinear, _ex=has_extra, _name=f'l{i}', _sd=has_side):
             tot = _c
             for n_, k_ in zip(_ins, _coef):
                 tot = tot + k_ * np.asarray(inputs[n_], dtype=float)
@@ -247,14 +254,16 @@ def random_loop_system(rng, size=2, name='loop', max_level=2, downstream=True, n
             ret = {_o: tot}
             if _ex:   # an output of a loop member that is not a coupling variable
                 ret['w0'] = 10.0 * np.asarray(inputs[_ins[1]], dtype=float) + 1.0
+            if _sd:
+                ret['s'] = 2.0 * np.asarray(inputs[_ins[0]], dtype=float) + 1.0
             if log is not None:
                 log.append((_name, {n_: np.atleast_1d(np.asarray(inputs[n_], dtype=float)).copy() for n_ in _ins},
                             {k_: np.atleast_1d(np.asarray(v_, dtype=float)).copy() for k_, v_ in ret.items()}))
             return ret
-        outs = [variables[f'u{i}']] + ([variables['w0']] if has_extra else [])
+        outs = [variables[f'u{i}']] + ([variables['w0']] if has_extra else []) + ([variables['s']] if has_side else [])
         comps.append(Component(model, [variables[n] for n in ins], outs, name=f'l{i}', vectorized=True,
                                data_fidelity=(max_level if nonlinear else 1,) * len(ins)))
-    spec = {'A': A, 'b': b, 'c': c, 'size': size, 'nonlinear': nonlinear, 'extra': extra}
+    spec = {'A': A, 'b': b, 'c': c, 'size': size, 'nonlinear': nonlinear, 'extra': extra, 'side': side}
     if downstream:
         variables['z'] = Variable('z', domain=(-50.0, 50.0))
 
@@ -269,6 +278,9 @@ def solve_affine_loop(spec, xvals):
     n = spec['size']
     M = [[(Fraction(1) if i == j else Fraction(0)) - spec['A'][i][j] for j in range(n)] for i in range(n)]
     rhs = [spec['c'][i] + spec['b'][i] * Fraction(xvals[f'x{i}']) for i in range(n)]
+    if spec.get('side'):
+        p_, c_, d_ = spec['side']
+        rhs[c_] += Fraction(d_) * (2 * Fraction(xvals[f'x{p_}']) + 1)
     for col in range(n):
         piv = next(r for r in range(col, n) if M[r][col] != 0)
         M[col], M[piv] = M[piv], M[col]; rhs[col], rhs[piv] = rhs[piv], rhs[col]
